@@ -8,6 +8,8 @@ pub mod gui;
 pub mod kanata;
 pub mod oskbd;
 pub mod tcp_server;
+#[cfg(kanata_verif)]
+pub mod verif_seam;
 #[cfg(test)]
 pub mod tests;
 
